@@ -43,6 +43,14 @@ CLAIMED = {
    note=TRUST + 'Member bounds are abstract (compute needs more rows than dimensions; C07). Counting facts of a[idx]=v, bincount and argsort are library axioms. Bounded leg: '
         'operation words up to length 3/4 on three point sets against the real Union.',
    tech='contract-based deductive verification: representation invariant over all exits, z3', ref='7 C13'),
+ 'C14': dict(
+   text='Deductive proof on the resampling block of Sampler.posterior (all statements from `if equal_weight:` to the return, extracted mechanically from the real AST on every run), '
+        'for ARBITRARY weighted arrays of one common length: every multiplicity is floor(r) or floor(r)+1 with r = exp(log_w - max) * boost; no multiplicity exceeds 1 when boost <= 1; '
+        'output rows are np.repeat images of the weighted rows under ONE monotone index map (order kept; point, log-likelihood and blob of a row stay together); all returned weights '
+        'equal -logsumexp(zeros(N)); no field of the sampler changes (frame), only the generator advances.',
+   note=TRUST + 'The first part of posterior() (building the weighted arrays) is outside this block (C02/C03) and only assumed to deliver four arrays of equal length >= 1. Expectation '
+        'E[count]=r is the one-line consequence of the proved refinement with u uniform on [0,1): stated, not machine-checked. exp axioms: 0 < exp(x) <= 1 for x <= 0.',
+   tech='contract-based deductive verification of a mechanically extracted block, z3', ref='7 C14'),
  'C15': dict(
    text='Deductive proof on the real AST of Prior.add_parameter / dimensionality / unit_to_physical: a normal exit appends exactly one (key, dist) record as declared and keeps the '
         'prior invariant (equal lengths, distinct string keys, every link points to an earlier non-link key); an exceptional exit is ValueError/TypeError and leaves keys and dists '
